@@ -26,6 +26,7 @@ type c11Spec struct {
 	Stuck    bool   `json:"stuck_commits"`
 	Second   bool   `json:"switch_to_marked_host"`
 	Tool     bool   `json:"resetup_tool"`
+	SlowOwn  bool   `json:"own_statements_take_60ms"`
 }
 
 func c11Gen(seed int64, idx int) c11Spec {
@@ -40,6 +41,9 @@ func c11Gen(seed int64, idx int) c11Spec {
 	sp.Stuck = sp.Repl == "none" && r.Intn(2) == 0
 	sp.Second = r.Intn(3) == 0
 	sp.Tool = r.Intn(3) == 0
+	// the marked host's daemon gets its answers slowly: clients commit and the replica applies between two reads of
+	// one recovery check
+	sp.SlowOwn = sp.Family == "lifecycle" && r.Intn(2) == 0
 	return sp
 }
 
@@ -52,11 +56,45 @@ type c11Monitor struct {
 	dirtyAt   map[string]time.Duration   // host -> first instant at which its own check ran while it was ahead / in replication error
 	stuckAt   map[string]time.Duration
 	ever      map[string]bool
+	placed    map[string]bool          // resetup file put there by the scenario, not by the daemon
+	wasDirty  map[string]time.Duration // host -> last instant at which ground truth had it dirty or stuck
 }
 
 func newC11Monitor(sc *Scen) *c11Monitor {
-	m := &c11Monitor{sc: sc, marked: map[string]time.Duration{}, Cleared: map[string]string{}, checkedAt: map[string][]time.Duration{}, dirtyAt: map[string]time.Duration{}, stuckAt: map[string]time.Duration{}, ever: map[string]bool{}}
+	m := &c11Monitor{sc: sc, marked: map[string]time.Duration{}, Cleared: map[string]string{}, checkedAt: map[string][]time.Duration{}, dirtyAt: map[string]time.Duration{}, stuckAt: map[string]time.Duration{}, ever: map[string]bool{}, placed: map[string]bool{}, wasDirty: map[string]time.Duration{}}
 	s := sc.S
+	// clause 4 the other way round: the resetup file is for a host that holds transactions the master lacks, whose
+	// replication is in error or whose commits are stuck - never for a replica that was clean all along. Ground truth
+	// is sampled at every own check and when the file appears (a replica's set only grows towards the master's, so a
+	// host clean at both instants and in between was clean whenever the daemon looked).
+	s.OnFile(func(h, kind string, appeared bool) {
+		if kind != "resetup" || !appeared {
+			return
+		}
+		s.W.Lock()
+		m.mu.Lock()
+		defer s.W.Unlock()
+		defer m.mu.Unlock()
+		w := s.W
+		if m.placed[h] {
+			return
+		}
+		master := s.CachedMaster()
+		x, ms := w.Servers[h], w.Servers[master]
+		if x == nil || ms == nil || !x.Up || !ms.Up || h == master || x.Source != master {
+			return
+		}
+		if _, d := m.wasDirty[h]; d {
+			return
+		}
+		if x.LastIOErrno != 0 || x.LastSQLErrno != 0 || !x.Executed.SubsetOf(ms.Executed) || w.PendingLocked(h) > 0 {
+			return
+		}
+		if len(m.checkedAt[h]) == 0 {
+			return
+		}
+		m.sc.Violate("C11", "resetup-file-for-a-clean-replica", fmt.Sprintf("the resetup file of %s appeared while it replicates from the master %s without error, holds no transaction the master lacks (and did not at any of its %d own checks) and has no stuck commits", h, master, len(m.checkedAt[h])), w.DescribeLocked())
+	})
 	s.OnZK(func(r fakezk.Rec) {
 		p := strings.TrimPrefix(r.Path, NS+"/")
 		s.W.Lock()
@@ -154,6 +192,9 @@ func newC11Monitor(sc *Scen) *c11Monitor {
 		}
 		m.checkedAt[h] = append(m.checkedAt[h], w.Now())
 		dirty := x.Source != "" && (x.LastIOErrno != 0 || x.LastSQLErrno != 0 || !x.Executed.SubsetOf(ms.Executed))
+		if dirty || w.PendingLocked(h) > 0 || x.Source != s.CachedMaster() {
+			m.wasDirty[h] = w.Now()
+		}
 		if dirty {
 			if _, ok := m.dirtyAt[h]; !ok {
 				m.dirtyAt[h] = w.Now()
@@ -229,6 +270,9 @@ func c11Run(u *Unit) {
 		switch sp.Family {
 		case "lifecycle":
 			if sp.Resetup {
+				mon.mu.Lock()
+				mon.placed[h] = true
+				mon.mu.Unlock()
 				touch(s.Dir + "/" + h + ".resetup")
 			}
 			w.Lock()
@@ -238,6 +282,14 @@ func c11Run(u *Unit) {
 				x.ReadOnly, x.SuperRO, x.SSMaster, x.WaitCount = false, false, true, 1
 			}
 			w.LogLocked(world.Event{Kind: "world", Who: "operator", Host: h, Class: "manual", Arg: "shape " + sp.Relation + "/" + sp.Repl, Mut: true})
+			if sp.SlowOwn {
+				w.Fault = func(c *world.StmtCtx) world.FaultAction {
+					if c.Caller == "mysync_"+h && c.Class != "conn_init" {
+						return world.FaultAction{Kind: "delay", Delay: 60 * time.Millisecond}
+					}
+					return world.FaultAction{}
+				}
+			}
 			w.Unlock()
 			if sp.Stuck {
 				s.O.WorkloadOnly = []string{master, h}
